@@ -1,4 +1,91 @@
-(* placeholder until the proofs are integrated *)
-From LLTD Require Import BufProofs.
-Theorem C05_placeholder : True. Proof. exact I. Qed.
-Print Assumptions C05_placeholder.
+(* C05: one mapper at a time.
+   Statements only: each theorem restates the full type of a lemma proved in coq/proofs and is closed by
+   `exact`; Print Assumptions beneath.  Regenerate with bin/genprops.py after a lemma changes. *)
+From LLTD Require Import BlockFun PropsMapper.
+
+Theorem C05_discover_answered_iff :
+  forall (ctx : N) (c : pcfg) (g : gcfg) (mtu : N) (s : ist) (buf : list N) (h : hdr),
+  parse_hdr buf = Some h ->
+  is_discover h = true ->
+  snd (f_step ctx c g mtu s buf) <> [] <-> active s = None \/ active s = Some (h_rsrc h).
+Proof. exact C05_answered_iff. Qed.
+Print Assumptions C05_discover_answered_iff.
+
+Theorem C05_accepted_becomes_mapper :
+  forall (ctx : N) (c : pcfg) (g : gcfg) (mtu : N) (s : ist) (buf : list N) (h : hdr),
+  parse_hdr buf = Some h ->
+  is_discover h = true ->
+  matches s h = true -> active (fst (f_step ctx c g mtu s buf)) = Some (h_rsrc h).
+Proof. exact C05_becomes_mapper. Qed.
+Print Assumptions C05_accepted_becomes_mapper.
+
+Theorem C05_mapper_preserved :
+  forall (ctx : N) (c : pcfg) (g : gcfg) (mtu : N) (s : ist) (buf : list N) (h : hdr) (X : mac),
+  parse_hdr buf = Some h ->
+  active s = Some X ->
+  is_reset h = false ->
+  (is_command h = true -> h_rsrc h = X) -> active (fst (f_step ctx c g mtu s buf)) = Some X.
+Proof. exact C05_preserved. Qed.
+Print Assumptions C05_mapper_preserved.
+
+Theorem C05_reset_releases :
+  forall (ctx : N) (c : pcfg) (g : gcfg) (mtu : N) (s : ist) (buf : list N) (h : hdr),
+  parse_hdr buf = Some h ->
+  is_reset h = true ->
+  active (fst (f_step ctx c g mtu s buf)) = None /\ snd (f_step ctx c g mtu s buf) = [].
+Proof. exact C05_reset_releases. Qed.
+Print Assumptions C05_reset_releases.
+
+Theorem C05_foreign_service_inert :
+  forall (ctx : N) (c : pcfg) (g : gcfg) (mtu : N) (s : ist) (buf : list N) (h : hdr),
+  parse_hdr buf = Some h -> is_discovery_tos (h_tos h) = false -> f_step ctx c g mtu s buf = (s, []).
+Proof. exact C05_foreign_service. Qed.
+Print Assumptions C05_foreign_service_inert.
+
+Theorem C05_short_frame_inert :
+  forall (ctx : N) (c : pcfg) (g : gcfg) (mtu : N) (s : ist) (buf : list N),
+  parse_hdr buf = None -> f_step ctx c g mtu s buf = (s, []).
+Proof. exact C05_unparsable. Qed.
+Print Assumptions C05_short_frame_inert.
+
+Theorem C05_history :
+  forall (ctx : N) (c : pcfg) (g : gcfg) (mtu : N) (s : ist) (X : mac) (bufs : list (list N)),
+  active s = Some X ->
+  Forall
+  (fun b : list N =>
+  match parse_hdr b with
+  | Some h => is_reset h = false /\ (is_command h = true -> h_rsrc h = X)
+  | None => True
+  end) bufs -> active (fst (f_run ctx c g mtu s bufs)) = Some X.
+Proof. exact C05_history. Qed.
+Print Assumptions C05_history.
+
+Theorem C05_history_next_discover :
+  forall (ctx : N) (c : pcfg) (g : gcfg) (mtu : N) (s : ist) (X : mac) (bufs : list (list N))
+  (buf : list N) (h : hdr),
+  active s = Some X ->
+  Forall
+  (fun b : list N =>
+  match parse_hdr b with
+  | Some h0 => is_reset h0 = false /\ (is_command h0 = true -> h_rsrc h0 = X)
+  | None => True
+  end) bufs ->
+  parse_hdr buf = Some h ->
+  is_discover h = true ->
+  snd (f_step ctx c g mtu (fst (f_run ctx c g mtu s bufs)) buf) <> [] <-> h_rsrc h = X.
+Proof. exact C05_history_next. Qed.
+Print Assumptions C05_history_next_discover.
+
+Theorem C05_after_reset_anyone :
+  forall (ctx : N) (c : pcfg) (g : gcfg) (mtu : N) (s : ist) (rbuf : list N)
+  (r : hdr) (buf : list N) (h : hdr),
+  parse_hdr rbuf = Some r ->
+  is_reset r = true ->
+  parse_hdr buf = Some h ->
+  is_discover h = true ->
+  snd (f_step ctx c g mtu (fst (f_step ctx c g mtu s rbuf)) buf) <> [] /\
+  snd (f_step ctx c g mtu (fst (f_step ctx c g mtu s rbuf)) buf) =
+  (if (h_tos h =? tos_discovery)%N then [Sleep 10] else []) ++ [tx ctx (hello_frame c g h (h_w0 h))] /\
+  active (fst (f_step ctx c g mtu (fst (f_step ctx c g mtu s rbuf)) buf)) = Some (h_rsrc h).
+Proof. exact C05_after_reset_any. Qed.
+Print Assumptions C05_after_reset_anyone.
